@@ -116,7 +116,7 @@ impl Prop for C08 {
         "C08"
     }
     fn rule(&self) -> String {
-        "five complete families, both backends, every case in a worker subprocess with a 10 s watchdog, 8 MiB stack, 6 GiB address-space cap; compile + Display + contextualize of every error and warning: (1) all sequences of <=L tokens (quick 3, thorough 4) over a 40-token alphabet as whole input / module body / after `A ::=`; (2) every byte prefix of the 33 feature modules, token-boundary prefixes of the smallest real-world modules, and every single-token edit (delete, duplicate, swap, replace by / insert each of the 40 tokens) at every token position of the feature modules (thorough: + 30 real-world modules); (3) é/€/𝄞 inserted at every character position of the feature modules; (4) every feature module left inside an unterminated comment (line, block depth 1..3), cstring, bstring, brace, parenthesis, version bracket; (5) all functional reference graphs on 3 nodes over 8 edge kinds (alias, constrained alias, COMPONENTS OF, member, OF element, selection, CHOICE alternative, parameterized instantiation) with/without a value of the first type, nesting depth 2^k (quick <=4096, thorough <=65536) for 14 bracket-like recursions, and 16 parsed-but-unsupported notations in 6 positions. Oracle: the worker answers within the watchdog with a non-panic outcome. Non-trivial: the input reached the compiler and a verdict came back.".into()
+        "five complete families, both backends, every case in a worker subprocess with a 10 s watchdog, 8 MiB stack, 6 GiB address-space cap; compile + Display + contextualize of every error and warning: (1) all sequences of <=L tokens (quick 3, thorough 4) over a 40-token alphabet as whole input / module body / after `A ::=`; (2) every byte prefix of the 34 feature modules, token-boundary prefixes of the smallest real-world modules, and every single-token edit (delete, duplicate, swap, replace by / insert each of the 40 tokens) at every token position of the feature modules (thorough: + 30 real-world modules); (3) é/€/𝄞 inserted at every character position of the feature modules; (4) every feature module left inside an unterminated comment (line, block depth 1..3), cstring, bstring, brace, parenthesis, version bracket; (5) all functional reference graphs on 3 nodes over 8 edge kinds (alias, constrained alias, COMPONENTS OF, member, OF element, selection, CHOICE alternative, parameterized instantiation) with/without a value of the first type, nesting depth 2^k (quick <=4096, thorough <=65536) for 14 bracket-like recursions, and 16 parsed-but-unsupported notations in 6 positions. Oracle: the worker answers within the watchdog with a non-panic outcome. Non-trivial: the input reached the compiler and a verdict came back.".into()
     }
     fn assumptions(&self) -> Vec<String> {
         vec!["panic keys are file::function (resolved with syn from the panic Location) + message class; crashes/hangs are keyed by the input-shape label".into()]
@@ -339,6 +339,26 @@ impl Prop for C08 {
                 ("alphabet-wide:long-string-universal", format!("A ::= SEQUENCE {{ f UniversalString (FROM (\"{long}\" | \"0\"..\"9\")) }}")),
             ] {
                 push("graph", lab.to_string(), module(&body), "both");
+            }
+        }
+        // ---- family 5a'': string value / permitted-alphabet constraints with degenerate operands (empty strings, reversed
+        //      and half-empty ranges) in every two-operand combination and every way of writing them
+        {
+            let opnds = ["\"\"", "\"a\"", "\"abc\"", "\"a\"..\"z\"", "\"z\"..\"a\"", "\"\"..\"z\"", "\"a\"..\"\"", "MIN..\"m\"", "\"m\"..MAX", "\"0\"..\"9\"", "\"\u{e9}\"..\"\u{20ac}\""];
+            let mut exprs: Vec<(String, String)> = opnds.iter().map(|o| (o.to_string(), String::new())).collect();
+            for a in opnds {
+                for b in opnds {
+                    for (op, on) in [(" | ", "U"), (" ^ ", "I"), (" EXCEPT ", "E")] {
+                        exprs.push((format!("{a}{op}{b}"), on.to_string()));
+                    }
+                }
+            }
+            for ty in ["IA5String", "PrintableString", "NumericString", "VisibleString", "BMPString", "UniversalString", "UTF8String"] {
+                for (e, on) in &exprs {
+                    for (form, text) in [("value", format!("({e})")), ("from", format!("(FROM ({e}))")), ("size-from", format!("(SIZE (1..5) ^ FROM ({e}))")), ("from-size", format!("(FROM ({e}) ^ SIZE (1..5))"))] {
+                        push("graph", format!("strcons:{form}:{on}"), module(&format!("A ::= {ty} {text}\nS ::= SEQUENCE {{ f {ty} {text} OPTIONAL }}")), "both");
+                    }
+                }
             }
         }
         // ---- family 5b: nesting depth
